@@ -435,6 +435,16 @@ class Interpreter(BaseInterpreter[TContext, TEvent]):
                 # 📬 Wait indefinitely for the next event from the queue.
                 event = await self._event_queue.get()
 
+                # 🗑️ An engine-raised event whose activation has ended.
+                if self._is_stale_event(event):
+                    logger.debug(
+                        "🗑️ Discarding stale event '%s' in '%s'.",
+                        event.type,
+                        self.id,
+                    )
+                    self._event_queue.task_done()
+                    continue
+
                 if self._raise_depth > limit:
                     logger.error(
                         "🛑 Exceeded %d chained self-raised events on '%s'. "
